@@ -14,6 +14,10 @@ from harness.props import c01
 
 THEOREMS = {
     'RsomeV.Props.C02': [
+        'RsomeV.C02.rc_complete_lp',
+        'RsomeV.C02.rc_exact_lp',
+        'RsomeV.C02.rc_complete_of_dual',
+        'RsomeV.C02.rc_exact_conic_partial',
     ],
     'RsomeV.Props.C01': ['RsomeV.C01.rc_sound'],
     'RsomeV.Props.C08': ['RsomeV.C08.lp_dual_strong'],
